@@ -90,6 +90,19 @@ type Vk = VerifyingKey<Scalar, KZGCommitmentScheme<Bls12>>;
 
 pub fn run(report: &dyn Fn(&str, String, String, &str)) {
     panic::set_hook(Box::new(|_| {}));
+    // ParamsKZG::read_custom: the 4-byte header is k; values >= 64 overflow `1 << k` (a panic under overflow checks).
+    // Values 33..=63 are left out on purpose: on a tree without the guard they allocate 2^k points and abort.
+    for kv in [64u32, 65, 128, 1 << 16, 1 << 31, u32::MAX] {
+        for format in [SerdeFormat::RawBytes, SerdeFormat::Processed] {
+            let bytes = kv.to_le_bytes().to_vec();
+            let decoded = panic::catch_unwind(|| ParamsKZG::<Bls12>::read_custom(&mut &bytes[..], format).is_ok());
+            match decoded {
+                Err(_) => report("params_point_count", format!("ParamsKZG::read_custom on the 4 header bytes {bytes:?} (k = {kv}), {format:?}"), "decoder PANICKED".into(), "Err"),
+                Ok(true) => report("params_point_count", format!("ParamsKZG::read_custom on the 4 header bytes {bytes:?} (k = {kv}), {format:?}"), "decoded Ok".into(), "Err"),
+                Ok(false) => {}
+            }
+        }
+    }
     let k = 4;
     let circuit = StandardPlonk(Scalar::random(OsRng));
     let params = ParamsKZG::<Bls12>::unsafe_setup(k, OsRng);
